@@ -10,6 +10,7 @@ the final traces of the same stream under different segmentations are compared w
 
 import random
 import struct
+import zlib
 
 from vf import build_nvx
 from vf import c02_judge as J
@@ -22,21 +23,29 @@ LEVEL = "exploration"
 EXHAUSTIVE = {"quick": False, "thorough": True}
 RULE = ("(a) exhaustive: every value of the first two frame octets x canonical completion per length class "
         "(7-bit exact; 126: ext 0/125/126/65535; 127: ext 0/65535/65536/2^63-1 header only/2^63/2^64-1), followed by "
-        "a ping and a text message, in receiver contexts {server,client} x {outside, inside a fragmented text message} "
-        "x {permessage-deflate negotiated or not} x {failByDrop on/off} - quick: 4 contexts (rotating with the seed) "
-        "completely + 12 with length-class representatives, thorough: all 16 completely; (b) grammar-generated frame "
-        "sequences with ONE mutation from the violation list, UTF-8 corpus (every ill-formed class, cut across frames), "
-        "close-payload corpus; (c) every stream under >=2 (exhaustive part) / >=4 (generated part) segmentations incl. "
-        "1-byte trickle and all single cuts for streams <=48 octets, with a prefix check after every read. "
+        "a ping and a text message, in receiver contexts {server,client} x {outside, inside a fragmented text message "
+        "(in PMCE contexts half of them inside a COMPRESSED message, continuation payloads being DEFLATE blocks)} "
+        "x {permessage-deflate negotiated or not} x {failByDrop on/off} - quick: 2 complementary contexts completely (one "
+        "per framework, rotating with the seed: seeds 0..7 cover all 16) + the others with length-class representatives, "
+        "thorough: all 16 completely in both frameworks; (b) grammar-generated frame "
+        "sequences with ONE mutation from the violation list (compressed messages from one compressor per connection), "
+        "UTF-8 corpus (every ill-formed class, cut across frames), close-payload corpus, PMCE corpus (context take-over "
+        "with verified back-references, stored/fixed/dynamic blocks, inflated text valid / ill-formed / truncated, "
+        "fragmented with control frames in between, undecodable DEFLATE); (c) every stream under >=2 (exhaustive part) / "
+        ">=4 (other parts) segmentations incl. 1-byte trickle and single cuts for streams <=48 octets (quick: every other "
+        "cut), with a prefix check after every read. "
         "Non-trivial = the reference assigns at least one event, a close or a failure to the stream; distinct = "
         "(context, stream) hash.")
 ASSUMPTIONS = [
-    "oracle = vf/c02_judge.py (written from RFC 6455 5/7/8.1 and RFC 7692 6/7.2, self-checked against the RFC examples and the first-draft judge); UTF-8 = vf/utf8_ref.py (Unicode Table 3-7)",
+    "oracle = vf/c02_judge.py (written from RFC 6455 5/7/8.1 and RFC 7692 6/7.2, self-checked against the RFC examples and the first-draft judge); UTF-8 = vf/utf8_ref.py (Unicode Table 3-7); zlib is the inflate reference",
     "default protocol options except failByDrop and permessage-deflate; websocket_version 13 (Hybi-13 / RFC 6455) only",
-    "grey (either outcome accepted): close codes 1012-1014; everything after a valid peer close frame (crash-freedom only); DEFLATE data that zlib rejects or that ends with BFINAL; onPing/onPong callbacks after a failure in closing-handshake mode; WHEN inside a header / inside a text frame's payload / inside a close frame's payload the failure is raised (asserted: not before the violation is decidable, not after the complete header resp. the end of that frame)",
+    "grey (either outcome accepted): close codes 1012-1014; everything after a valid peer close frame (crash-freedom only); the verdict for DEFLATE data that zlib rejects, that ends with BFINAL or whose stripped tail is not an empty stored block (crash-freedom and the deliveries before that message ARE asserted); onPing/onPong callbacks after a failure in closing-handshake mode; WHEN inside a header / inside a text frame's payload / inside a close frame's payload the failure is raised (asserted: not before the violation is decidable, not after the complete header resp. the end of that frame)",
+    "compressed text that inflates to invalid UTF-8: failure not before the frame in which zlib emits the ill-formed octets, at the latest at the end of the message (or at the next violation: then either class); control frames that fall due in between may or may not be delivered/answered (an inflater may lag) - but what IS delivered must be a prefix of the reference's events and every delivered ping must be answered before the failure",
     "a close frame whose code AND reason are both unacceptable may be failed with 1002 or 1007",
     "in closing-handshake mode only the FIRST close frame written, absence of later message deliveries and absence of later pongs are asserted",
-    "worlds: vf/world.py fake transports (vf/c02_fast.py builds them from one class per framework, same method bodies); asyncio loop is run until idle after every read",
+    "an exception that reaches the framework (out of dataReceived, or out of a loop callback under asyncio) is a violation in every zone, grey or not",
+    "worlds: vf/world.py fake transports (vf/c02_fast.py builds them from one class per framework, same method bodies, and settles with a constant-time 'nothing runnable' test); asyncio loop is run until idle after every read",
+    "during the exhaustive sweep autobahn.websocket.protocol.pformat (used only to render two DEBUG log lines per connection) is replaced by a constant; corpora and generated streams run with the original",
     "NVX UTF-8 validator / XOR masker are rebuilt from the current tree (VERIF_NVX_DIR); the pure-Python fall-backs run in the thorough tier",
 ]
 N_CLAUSE_MODE = 2 * len(J.CLAUSES) - 2 * 2    # unmasked-client-frame only server, masked-server-frame only client: both modes still reached
@@ -45,6 +54,8 @@ DECIDING = {
     "messages_compared": 500, "segmentation_pairs_compared": 1000, "onclose_reports_checked": 100,
     "outcome/drop/protocol": 10, "outcome/drop/payload": 10, "outcome/close/1002": 10, "outcome/close/1007": 10,
     "valid_close_checked": 10, "clauses_reached": 2 * len(J.CLAUSES), "impl_reasons": 38,
+    "compressed_messages_compared": 200, "context_takeover_streams": 50, "clause/compressed-text-invalid-utf8": 50,
+    "events_in_failure_window_checked": 10,
 }
 ONLINE_MAX = 4096
 
@@ -122,6 +133,28 @@ def variants(b1):
     return EXT16 if l7 == 126 else (EXT64 if l7 == 127 else (None,))
 
 
+_PRE_TEXT = b"pr\xc3\xa9"
+_PRE_COMP = None
+
+
+def pre_frame(ctx, b0, b1, supplied_zero):
+    """the first fragment that puts the receiver 'inside a fragmented text message'.  In PMCE contexts half of
+    the cases (parity of b0+b1) open a COMPRESSED message: DEFLATE of 'pr\xe9' ended by a sync flush; continuation
+    payloads are then ``comp_payload`` blocks, so that a FIN continuation of any length completes a message that
+    is well-formed per RFC 7692 7.2.1 (for an empty continuation the flush marker is stripped here already)."""
+    global _PRE_COMP
+    pk = peer_key(ctx)
+    if not ctx.inside:
+        return b"", False
+    if ctx.pmce and ((b0 + b1) & 1):
+        if _PRE_COMP is None:
+            c = zlib.compressobj(6, zlib.DEFLATED, -15)
+            _PRE_COMP = c.compress(_PRE_TEXT) + c.flush(zlib.Z_SYNC_FLUSH)
+            assert _PRE_COMP.endswith(b"\x00\x00\xff\xff")
+        return enc(1, _PRE_COMP[:-4] if supplied_zero else _PRE_COMP, fin=False, rsv=4, key=pk), True
+    return enc(1, _PRE_TEXT, fin=False, key=pk), False
+
+
 def hdr_stream(ctx, b0, b1, vi):
     l7 = b1 & 0x7F
     masked = b1 >> 7
@@ -134,8 +167,11 @@ def hdr_stream(ctx, b0, b1, vi):
     elif l7 == 127:
         hdr += struct.pack("!Q", var)
     supplied = L if L <= 65536 else (0 if L == (1 << 63) - 1 else 8)
+    pre, pre_compressed = pre_frame(ctx, b0, b1, supplied == 0)
     if op == 8:
         p = b"" if supplied == 0 else (b"\x03" if supplied == 1 else b"\x03\xe8" + ascii_text(supplied - 2))
+    elif op == 0 and pre_compressed:
+        p = comp_payload(supplied)
     elif op == 1 or (op == 0 and ctx.inside):
         p = comp_payload(supplied) if (rsv == 4 and ctx.pmce and op == 1) else text_payload(supplied)
     elif op == 2 and rsv == 4 and ctx.pmce:
@@ -148,7 +184,6 @@ def hdr_stream(ctx, b0, b1, vi):
     else:
         frame = hdr + p
     pk = peer_key(ctx)
-    pre = enc(1, b"pr\xc3\xa9", fin=False, key=pk) if ctx.inside else b""
     if L == (1 << 63) - 1:
         return pre + frame, len(pre), len(pre) + len(hdr) + (4 if masked else 0)
     trailer = enc(9, b"T", key=pk) + enc(1, b"after", key=pk)
@@ -201,6 +236,8 @@ def account(R, ctx, tl):
         R.count("grey_close_codes")
     if tl.grey_from is not None and tl.n > tl.grey_from:
         R.count("streams_with_grey_tail")
+    if tl.ncompressed > 1:
+        R.count("context_takeover_streams")
 
 
 REASON_TAGS = [
@@ -508,7 +545,100 @@ def close_corpus(ctx):
     return out
 
 
-def gen_segs(stream, seedstr, nmin=4):
+def _pieces(data, cuts):
+    out, prev = [], 0
+    for c in sorted(set(c for c in cuts if 0 <= c <= len(data))) + [len(data)]:
+        out.append(data[prev:c])
+        prev = c
+    return out
+
+
+def pmce_corpus(ctx):
+    """[(label, stream)] for contexts with permessage-deflate: well-formed RFC 7692 traffic produced by ONE
+    compressor per connection (context take-over: later messages repeat earlier content, the check asserts that
+    their DEFLATE data really refers back), inflating to valid / ill-formed / truncated UTF-8, unfragmented and
+    fragmented with control frames in between; DEFLATE block types stored / fixed / dynamic; compressed and
+    uncompressed messages mixed; and a few streams whose RSV1 payload is NOT decodable (grey for the verdict:
+    crash-freedom and the deliveries before it are asserted)."""
+    assert ctx.pmce
+    pk = peer_key(ctx, 11)
+    trailer = enc(9, b"T", key=pk) + enc(1, b"after", key=pk)
+    out = []
+    base = "The quick brown fox jumps over the lazy dog - d\u00e9j\u00e0 vu \u20ac 12,50 \U0001f600. ".encode("utf-8")
+
+    def frames(op, wire, cuts=(), compressed=True, ctl=(), drop_last=False):
+        """frames of one message; ``ctl``: {index of the fragment AFTER which a control frame goes: (opcode, payload)}"""
+        ps = _pieces(wire, cuts)
+        fr = []
+        for j, piece in enumerate(ps):
+            fr.append(enc(op if j == 0 else 0, piece, fin=(j == len(ps) - 1), rsv=4 if (compressed and j == 0) else 0, key=pk))
+            for (after, cop, cpl) in ctl:
+                if after == j and j < len(ps) - 1:
+                    fr.append(enc(cop, cpl, key=pk))
+        return b"".join(fr[:-1] if drop_last else fr)
+
+    def takeover_pair(second, level=6):
+        """first message = base text; second message = ``second`` (contains base again) from the same compressor"""
+        d = J.Deflater(level)
+        w1 = d.message(base * 3)
+        w2 = d.message(second)
+        alone = J.Deflater(level).message(second)
+        if level:
+            assert len(w2) < len(alone), "harness: no back-reference into the previous message"
+        return w1, w2
+
+    # 1. context take-over, valid text, several fragmentations, pings/pongs between the fragments
+    for level in (1, 6, 9):
+        w1, w2 = takeover_pair(base * 2 + b"second", level)
+        out.append(("pmce/takeover/l%d/whole" % level, frames(1, w1) + frames(1, w2) + trailer))
+        out.append(("pmce/takeover/l%d/frag" % level, frames(1, w1, [1, len(w1) // 2], ctl=[(0, 9, b"p1"), (1, 10, b"q")]) +
+                    frames(1, w2, [0, 2, len(w2) - 1], ctl=[(1, 9, b"p2")]) + trailer))
+        out.append(("pmce/takeover/l%d/binary-second" % level, frames(1, w1) + frames(2, w2, [3]) + trailer))
+    # three messages, an uncompressed one in between (does not pass through the inflater)
+    d = J.Deflater()
+    w1, w3 = d.message(base * 2), d.message(base + b"third")
+    out.append(("pmce/mixed", frames(1, w1, [4]) + frames(1, b"plain " + base, [7], compressed=False) + frames(1, w3) + trailer))
+    # stored blocks (level 0) and an empty compressed message
+    d = J.Deflater(0)
+    out.append(("pmce/stored", frames(1, d.message(base), [5, 40]) + frames(2, d.message(bytes(range(256)))) + trailer))
+    d = J.Deflater()
+    out.append(("pmce/empty", frames(1, d.message(b"")) + frames(1, d.message(base)) + frames(1, d.message(b""), [0]) + trailer))
+    # 64 KiB of repetitive text in ~200 octets of DEFLATE data, then a message referring back to it
+    d = J.Deflater()
+    big = (base * (65536 // len(base) + 1))[:65536 - 2] + "\u00e9".encode("utf-8")
+    wb, w2 = d.message(big), d.message(base + b"after big")
+    out.append(("pmce/big", frames(1, wb, [len(wb) // 3, 2 * len(wb) // 3], ctl=[(0, 9, b"in-big")]) + frames(1, w2) + trailer))
+    # 2. the SECOND message (back-references) inflates to ill-formed / truncated UTF-8
+    for bi, bad in enumerate(ILL[::3] + TRUNC[::4]):
+        trunc = bad in TRUNC
+        for place in ("start", "mid", "end"):
+            if trunc and place != "end":
+                continue
+            text = {"start": bad + base, "mid": base + bad + base, "end": base + bad}[place]
+            w1, w2 = takeover_pair(text)
+            n2 = len(w2)
+            name = "pmce/%s%d/%s" % ("trunc" if trunc else "ill", bi, place)
+            out.append((name + "/whole", frames(1, w1) + frames(1, w2) + trailer))
+            out.append((name + "/frag-pings", frames(1, w1) + frames(1, w2, [1, n2 // 2, n2 - 1], ctl=[(0, 9, b"a"), (1, 9, b"b"), (2, 10, b"c")]) + trailer))
+            out.append((name + "/binary", frames(1, w1) + frames(2, w2, [n2 // 2]) + trailer))
+            # ... followed by another violation before the message ends / by nothing (message never completed)
+            out.append((name + "/then-rsv", frames(1, w1) + frames(1, w2, [n2 - 1], ctl=[(0, 9, b"a")], drop_last=True) +
+                        enc(9, b"x", rsv=2, key=pk) + trailer))
+            out.append((name + "/unfinished", frames(1, w1) + frames(1, w2, [n2 - 1], ctl=[(0, 9, b"a")], drop_last=True)))
+    # 3. valid text whose multi-octet sequences straddle fragment boundaries of the COMPRESSED data
+    w1, w2 = takeover_pair(("\U0001f600\u20ac\u00e9" * 40).encode("utf-8") + base)
+    out.append(("pmce/straddle", frames(1, w1) + frames(1, w2, list(range(1, len(w2), 3))) + trailer))
+    # 4. undecodable DEFLATE data (grey): open connection / after a valid compressed message / error only at the tail
+    out.append(("pmce/garbage/first", enc(9, b"L", key=pk) + enc(1, b"\xff\xff\xff", rsv=4, key=pk) + trailer))
+    out.append(("pmce/garbage/second", frames(1, J.Deflater().message(base)) + enc(2, b"\x07garbage", rsv=4, key=pk) + trailer))
+    out.append(("pmce/garbage/continuation", enc(1, J.Deflater().message(base)[:6], fin=False, rsv=4, key=pk) + enc(9, b"P", key=pk) +
+                enc(0, b"\xff" * 9, key=pk) + trailer))
+    out.append(("pmce/garbage/tail", enc(1, b"\x00\x01", rsv=4, key=pk) + trailer))
+    out.append(("pmce/garbage/bfinal", enc(1, b"\x03\x00", rsv=4, key=pk) + frames(1, J.Deflater().message(base)) + trailer))
+    return out
+
+
+def gen_segs(stream, seedstr, cut_step=1, cut_phase=0):
     n = len(stream)
     specs = [["whole"]]
     if n <= 3000:
@@ -518,7 +648,8 @@ def gen_segs(stream, seedstr, nmin=4):
     specs.append(["policy", "small" if n <= 3000 else "random", seedstr + "s"])
     if n <= 48:
         for c in range(1, n):
-            specs.append(["cuts", [c]])
+            if (c + cut_phase) % cut_step == 0:
+                specs.append(["cuts", [c]])
     return specs
 
 
@@ -542,35 +673,29 @@ def shards(tier, seed):
     env = build_nvx.worker_env("ship")
     for fw in ("tx", "aio"):
         for part in range(NPARTS):
-            out.append({"name": "%s-nvx-%d" % (fw, part), "fw": fw, "env": env, "timeout": 1500,
+            out.append({"name": "%s-nvx-%d" % (fw, part), "fw": fw, "env": env, "timeout": 1500 if tier == "quick" else 7200,
                         "params": {"tier": tier, "seed": seed, "part": part, "parts": NPARTS, "nvx": True}})
     if tier == "thorough":
         env0 = dict(env, AUTOBAHN_USE_NVX="0")
         for fw in ("tx", "aio"):
             for part in range(8):
-                out.append({"name": "%s-pure-%d" % (fw, part), "fw": fw, "env": env0, "timeout": 1500,
+                out.append({"name": "%s-pure-%d" % (fw, part), "fw": fw, "env": env0, "timeout": 1500 if tier == "quick" else 7200,
                             "params": {"tier": tier, "seed": seed, "part": part, "parts": 8, "nvx": False}})
     return out
 
 
-def full_contexts(tier, seed, nvx):
-    """indices (into M.ALL_CTX) of the contexts swept completely"""
+_FULL_ORDER = [0, 15, 6, 9, 3, 12, 5, 10, 1, 14, 7, 8, 2, 13, 4, 11]    # neighbours 2j / 2j+1 differ in all four factors
+
+
+def full_contexts(tier, seed, nvx, fw):
+    """indices (into M.ALL_CTX) of the contexts swept completely by the workers of framework ``fw``.
+    quick: ONE context under Twisted and its complement (other role, other fragmentation state, other PMCE state,
+    other failure mode) under asyncio, rotating with the seed: seeds 0..7 sweep all 16 once."""
     if not nvx:
         return []
     if tier == "thorough":
         return list(range(16))
-    # 4 contexts, every factor taking both values, rotating with the seed
-    base = [(0, 0, 0, 1), (1, 1, 0, 0), (0, 1, 1, 0), (1, 0, 1, 1)]    # (client?, inside, pmce, drop)
-    rot = seed % 8
-    sel = []
-    for (c, i, p, d) in base:
-        c, i, p, d = c ^ (rot & 1), i ^ ((rot >> 1) & 1), p ^ ((rot >> 2) & 1), d
-        if rot >= 4:
-            d ^= 1 if (c ^ i) else 0
-        for k, x in enumerate(M.ALL_CTX):
-            if (x.role == "client") == bool(c) and x.inside == bool(i) and x.pmce == bool(p) and x.drop == bool(d):
-                sel.append(k)
-    return sorted(set(sel))
+    return [_FULL_ORDER[(2 * seed + (0 if fw == "tx" else 1)) % 16]]
 
 
 def shard_of(b0):
@@ -602,19 +727,34 @@ def run_shard(params, R):
     tier, seed, part, parts = params["tier"], params["seed"], params["part"], params["parts"]
     env = M.Env()
     fw = env.ws.world.fw
+    import time
+    walls = {}
     try:
-        _run_exhaustive(env, R, tier, seed, part, parts, params["nvx"])
-        _run_corpora(env, R, tier, seed, part, parts)
-        _run_generated(env, R, tier, seed, part, parts, fw)
+        for name, fn, args in (("exhaustive", _run_exhaustive, (env, R, tier, seed, part, parts, params["nvx"])),
+                               ("corpora", _run_corpora, (env, R, tier, seed, part, parts)),
+                               ("generated", _run_generated, (env, R, tier, seed, part, parts, fw))):
+            t0 = time.time()
+            e0 = R.counters.get("evaluations", 0)
+            fn(*args)
+            walls[name] = [round(time.time() - t0, 1), R.counters.get("evaluations", 0) - e0]     # informational only
     finally:
         env.close()
+    R.note("phase_wall_s_and_evaluations", walls)
     for k in DECIDING:
         if not k.startswith(("clauses", "impl_")):
             R.count(k, 0)
 
 
 def _run_exhaustive(env, R, tier, seed, part, parts, nvx):
-    full = set(full_contexts(tier, seed, nvx))
+    env.fast_logging(True)
+    try:
+        _run_exhaustive_(env, R, tier, seed, part, parts, nvx)
+    finally:
+        env.fast_logging(False)
+
+
+def _run_exhaustive_(env, R, tier, seed, part, parts, nvx):
+    full = set(full_contexts(tier, seed, nvx, env.ws.world.fw))
     nalt = 1 if tier == "quick" else 2
     for ci, ctx in enumerate(M.ALL_CTX):
         is_full = ci in full
@@ -629,8 +769,10 @@ def _run_exhaustive(env, R, tier, seed, part, parts, nvx):
                     stream, fstart, hend = hdr_stream(ctx, b0, b1, vi)
                     sel = (b0 * 131 + b1 * 31 + vi * 7 + ci + seed * 17) & 0xFFFF
                     specs = [["whole"]] + hdr_alt_segs(len(stream), fstart, hend, sel, nalt)
-                    if not is_full:
+                    if not is_full and tier != "quick":
                         specs.append(["bytewise"] if len(stream) <= 220 else ["policy", "random", "x%d" % sel])
+                    elif not is_full and (sel & 1) and len(stream) <= 220:
+                        specs[1] = ["bytewise"]
                     run_stream(env, R, ctx, stream, specs, {"kind": "hdr", "ctx": ctx.to_json(), "b0": b0, "b1": b1, "vi": vi},
                                "hdr/%02x%02x/%d" % (b0, b1, vi))
                     R.count("header_cases")
@@ -644,14 +786,14 @@ def _run_corpora(env, R, tier, seed, part, parts):
     for ci, ctx in enumerate(M.ALL_CTX):
         if ctx.inside:
             continue
-        for name, corpus in (("utf8", utf8_corpus(ctx)), ("close", close_corpus(ctx))):
+        for name, corpus in (("utf8", utf8_corpus(ctx)), ("close", close_corpus(ctx)), ("pmce", pmce_corpus(ctx) if ctx.pmce else [])):
             for k, (label, stream) in enumerate(corpus):
                 idx += 1
                 if idx % parts != part:
                     continue
-                if tier == "quick" and (k + ci + seed) % 2:
+                if tier == "quick" and name != "pmce" and (k + ci + seed) % 2:
                     continue
-                specs = gen_segs(stream, "c%d/%d/%d" % (seed, ci, k))
+                specs = gen_segs(stream, "c%d/%d/%d" % (seed, ci, k), cut_step=2 if tier == "quick" else 1, cut_phase=k + seed)
                 run_stream(env, R, ctx, stream, specs, {"kind": name, "ctx": ctx.to_json(), "idx": k}, label)
                 R.count("corpus_cases/" + name)
                 R.sample({"ctx": ctx.name(), "label": label, "stream_hex": stream[:80].hex()}, kind="corpus-" + name, every=211)
@@ -692,6 +834,8 @@ def replay(case, R):
         stream = utf8_corpus(ctx)[case["idx"]][1]
     elif kind == "close":
         stream = close_corpus(ctx)[case["idx"]][1]
+    elif kind == "pmce":
+        stream = pmce_corpus(ctx)[case["idx"]][1]
     else:
         stream = bytes.fromhex(case["hex"])
     specs = [case["seg"]]
@@ -711,10 +855,12 @@ MANIFEST_ENTRY = {
              "close frames written, transport drop, onClose, escaped exceptions - in observed order) is compared with an "
              "independent RFC 6455/7692 receiver judge, and final traces of the same stream under different segmentations "
              "are compared with each other. Exhaustive over the first two header octets x canonical length completions x 16 "
-             "receiver contexts (thorough; 4 complete + 12 sampled in quick), plus grammar-generated sequences with one "
-             "mutation, UTF-8 and close-payload corpora. Held = no mismatch on the executions listed in the evidence."),
+             "receiver contexts (thorough; 2 complete + 14 sampled per seed in quick), plus grammar-generated sequences with one "
+             "mutation, UTF-8, close-payload and permessage-deflate corpora (context take-over, inflated text valid/invalid). "
+             "Held = no mismatch on the executions listed in the evidence."),
     "note": ("trusts vf/c02_judge.py + vf/utf8_ref.py and zlib as the inflate reference; grey zones (close codes 1012-1014, data "
-             "after a peer close, malformed DEFLATE, callbacks after a failure in closing-handshake mode, the exact moment inside "
-             "a header/frame at which a failure is raised) are not asserted; Hixie-76 and proxy paths are not driven"),
+             "after a peer close, the verdict for malformed DEFLATE, callbacks after a failure in closing-handshake mode, the exact "
+             "moment inside a header/frame - for compressed text: inside the message - at which a failure is raised) are not "
+             "asserted; Hixie-76 and proxy paths are not driven"),
     "technique": "runtime monitoring: history vs executable RFC reference (prefix-wise), differential across read segmentations, exhaustive header decision table",
 }
